@@ -23,6 +23,17 @@ fn main() {
     if args[1] == "worker" {
         std::process::exit(monitors::worker_main(&args[2..]));
     }
+    if args[1] == "eval" {
+        // debugging aid: t2n-verif eval <lang> <threshold> <text>...  (not used by any registered check)
+        let code = args[2].as_str();
+        let th: f64 = args.get(3).and_then(|t| t.parse().ok()).unwrap_or(0.0);
+        for text in &args[4..] {
+            for (name, api) in [("concrete", t2n_verif::api::concrete(code)), ("facade", t2n_verif::api::facade(code))] {
+                println!("[{} {}] {:?}\n  replace@{} = {:?}\n  text2digits = {:?}\n  find = {:?}", code, name, text, th, api.replace(text, th), api.validate(text), api.scan_text(text, th).1);
+            }
+        }
+        std::process::exit(0);
+    }
     t2n_verif::core::install_panic_hook();
     let prop = args[1].clone();
     let verif_dir = std::env::var("VERIF_DIR").unwrap_or_else(|_| "/verif".to_string());
